@@ -203,6 +203,15 @@ Proof.
   repeat split; try lia; auto. apply rs_step, rs_refl.
 Qed.
 
+Lemma cinv_advance ih ivs s : cinv ih ivs s -> cinv ih ivs (advance_voting_round s).
+Proof. intros H. exact (cinv_increment ih ivs (ev_w s (EvNil (k_vot s))) H). Qed.
+Lemma adv_advance ih ivs s : cinv ih ivs s -> adv s (advance_voting_round s).
+Proof. intros H. exact (adv_increment ih ivs (ev_w s (EvNil (k_vot s))) H). Qed.
+Lemma cinv_jump ih ivs s : cinv ih ivs s -> cinv ih ivs (jump_voting_round s).
+Proof. intros H. exact (cinv_increment ih ivs s H). Qed.
+Lemma adv_jump ih ivs s : cinv ih ivs s -> adv s (jump_voting_round s).
+Proof. intros H. exact (adv_increment ih ivs s H). Qed.
+
 (** ** The commit shift *)
 Lemma chain_shift ih s p :
   k_init_h s = ih -> chain_ok ih s -> ph_good s p ->
@@ -267,11 +276,10 @@ Proof. induction l as [|y l IH]; cbn; [discriminate|]. destruct (f y); [intros E
 Lemma cinv_check_voting ih ivs s s' :
   cinv ih ivs s -> check_voting_precommit_shift s = Ok s' -> cinv ih ivs s' /\ adv s s'.
 Proof.
-  intros H. unfold check_voting_precommit_shift, bind, advance_voting_round.
+  intros H. unfold check_voting_precommit_shift, bind.
   destruct (byz_majority _) as [maj|]; [|discriminate].
-  assert (Hincr : cinv ih ivs (update_observers (increment_voting_round s)) /\
-                  adv s (update_observers (increment_voting_round s))).
-  { split; [apply cinv_increment; exact H|eapply adv_increment; exact H]. }
+  assert (Hincr : cinv ih ivs (advance_voting_round s) /\ adv s (advance_voting_round s)).
+  { split; [apply cinv_advance; exact H|eapply adv_advance; exact H]. }
   destruct (_ <? maj).
   - destruct (_ =? _); intros E; inversion E; subst; [exact Hincr|].
     split; [exact H|apply adv_refl].
@@ -286,11 +294,11 @@ Qed.
 Lemma cinv_check_next_round ih ivs s s' :
   cinv ih ivs s -> check_next_round_precommit_shift s = Ok s' -> cinv ih ivs s' /\ adv s s'.
 Proof.
-  intros H. unfold check_next_round_precommit_shift, bind, jump_voting_round.
+  intros H. unfold check_next_round_precommit_shift, bind.
   destruct (byz_minority _) as [mn|]; [|discriminate].
   destruct (_ <? mn); [intros E; inversion E; subst; split; [exact H|apply adv_refl]|].
   destruct (byz_majority _) as [maj|]; [|discriminate].
-  pose proof (cinv_increment ih ivs s H) as H1. pose proof (adv_increment ih ivs s H) as A1.
+  pose proof (cinv_jump ih ivs s H) as H1. pose proof (adv_jump ih ivs s H) as A1.
   destruct (maj <=? _).
   - intros E. destruct (cinv_check_voting _ _ _ _ H1 E) as (H2&A2).
     split; [exact H2|]. eapply adv_trans; eassumption.
@@ -300,11 +308,11 @@ Qed.
 Lemma cinv_check_prevote ih ivs s s' :
   cinv ih ivs s -> check_prevote_shift s = Ok s' -> cinv ih ivs s' /\ adv s s'.
 Proof.
-  intros H. unfold check_prevote_shift, bind, jump_voting_round.
+  intros H. unfold check_prevote_shift, bind.
   destruct (byz_minority _) as [mn|]; [|discriminate].
   destruct (_ <? mn); intros E; inversion E; subst.
   - split; [exact H|apply adv_refl].
-  - split; [apply cinv_increment; exact H|eapply adv_increment; exact H].
+  - split; [apply cinv_jump; exact H|eapply adv_jump; exact H].
 Qed.
 
 (** ** Votes *)
@@ -320,7 +328,7 @@ Proof.
   assert (Hp : pos_eq v v2).
   { unfold v2, v1. destruct (kind =? KPrevote); repeat split. }
   set (s1 := put_view s vid v2).
-  set (s2 := log_w (set_rounds s1 _) _).
+  set (s2 := ev_w (log_w (set_rounds s1 _) _) _).
   assert (F : frame_eq s s2).
   { eapply frame_eq_trans; [apply frame_put_view; exact Hp|apply frame_set_rounds]. }
   pose proof (cinv_frame _ _ _ _ F H) as H2. pose proof (adv_frame _ _ F) as A2.
@@ -419,7 +427,7 @@ Proof.
   set (s1 := put_view s vid _) in *.
   assert (A1 : adv s s1).
   { unfold adv. rewrite E1, E2, E3, E4, E5. repeat split; try lia; auto. apply rs_refl. }
-  set (s2 := log_w (set_rounds s1 _) _).
+  set (s2 := ev_w (log_w (set_rounds s1 _) _) _).
   assert (H2 : cinv ih ivs s2) by (eapply cinv_frame; [apply frame_set_rounds|exact H1]).
   assert (A2 : adv s s2) by exact A1.
   destruct (negb _); [intros E; inversion E; subst; split; assumption|].
